@@ -8,10 +8,9 @@ CONSTANTS
   ForbSets = {{}}
   PV = {1, 3}
   MinV = {1, 3}
-  MaxV = {1, 3}
-  LA = {1, 3}
-  LB = {1, 3}
-  Depth = 5
+  MaxV = {1}
+  Pairs = {13, 31}
+  Depth = 7
 CONSTRAINT Bound
 INVARIANT Emit1
 CHECK_DEADLOCK FALSE
